@@ -647,7 +647,7 @@ def replay_case(case):
 def cases_for(tier, seed):
     rng = random.Random(seed * 977 + 3)
     cases = []
-    n = 260 if tier == "quick" else 4000
+    n = 900 if tier == "quick" else 8000
     digits_cycle = [0, 1, 2, 3, 4, 5, 6]
     # regression corners named in the property
     fixed = [
@@ -686,8 +686,10 @@ def cases_for(tier, seed):
         else:
             NICE[0] = True
             neq = rng.choice([0, 1, 1, 2])
-            cs = [linear_equality(rng, pool) for _ in range(neq)]
-            cs += [condition(rng, pool, op=rng.choice(["<=", ">=", "<", ">"])) for _ in range(rng.choice([1, 2]))]
+            ineqs = [condition(rng, pool, op=rng.choice(["<=", ">=", "<", ">"])) for _ in range(rng.choice([1, 2]))]
+            if any("/" in sexpr.render(c) for c in ineqs):
+                neq = 0  # an equality may force a denominator to zero: such inputs have no meaning (outside the claim)
+            cs = [linear_equality(rng, pool) for _ in range(neq)] + ineqs
             NICE[0] = False
             cases.append({"entry": "precondition", "conds": cs, "digits": 4 + (i % 3)})
     # default-digits path (the module-level default read from NUMERIC_PRECISION)
